@@ -38,6 +38,7 @@ func runC01(c *Ctx) {
 	ruleForward(c, p)
 	ruleInferTables(c, p, "C01")
 	ruleOffsetsAppend(c, p)
+	ruleNullFlag(c, p)
 	ruleResetBefore(c, p, "C01.reset")
 	c.R.Assumptions = append(c.R.Assumptions,
 		"decided: append-only encoders, agreement of encoder / vectored writer / decoder on sequence and width of what is on the wire in every build configuration and revision, LowCardinality key width and per-width key columns, state/prepare forwarding of wrappers; not decided: equality of decoded and encoded values for all inputs")
@@ -629,5 +630,73 @@ func ruleOffsetsAppend(c *Ctx, p *core.Program) {
 	}
 	if n < 3 {
 		c.R.Unk(rule, "population", cfg, "", sprintf("%d offset appends found", n))
+	}
+}
+
+// ruleNullFlag: the null-mask constant written by ColNullable.Append for a set value is the
+// constant ColNullable.Row interprets as set (and IsElemNull as not null).
+func ruleNullFlag(c *Ctx, p *core.Program) {
+	rule := "C01.nullflag"
+	c.R.Rule(rule, "sibling agreement inside ColNullable: the mask byte Append writes for a value that is set equals the byte Row compares with to report Set, and differs from the byte IsElemNull compares with to report NULL")
+	cfg := p.Cfg.Name
+	app := p.Method(core.PkgProto, "ColNullable", "Append")
+	row := p.Method(core.PkgProto, "ColNullable", "Row")
+	isn := p.Method(core.PkgProto, "ColNullable", "IsElemNull")
+	if app == nil || row == nil {
+		c.R.Unk(rule, "ColNullable", cfg, "", "Append / Row missing")
+		return
+	}
+	// Append: constant on the edge where v.Set is true
+	setConst, haveSet := int64(0), false
+	setEdges := core.CondEdges(app, true, func(cond ssa.Value) (bool, bool) {
+		return true, strings.HasSuffix(core.FieldOrigin(cond, 0), ".Set")
+	})
+	for _, b := range app.Blocks {
+		for _, in := range b.Instrs {
+			ph, ok := in.(*ssa.Phi)
+			if !ok {
+				continue
+			}
+			for i, e := range ph.Edges {
+				k, okc := core.ConstInt(e)
+				if !okc {
+					continue
+				}
+				pred := b.Preds[i]
+				if len(setEdges) > 0 && core.OnlyViaEdges(app, pred.Instrs[len(pred.Instrs)-1], setEdges) {
+					setConst, haveSet = k, true
+				}
+			}
+		}
+	}
+	cmpConst := func(fn *ssa.Function) (int64, bool) {
+		for _, b := range fn.Blocks {
+			for _, in := range b.Instrs {
+				if bo, ok := in.(*ssa.BinOp); ok && bo.Op == token.EQL {
+					if k, okc := core.ConstInt(bo.Y); okc {
+						return k, true
+					}
+				}
+			}
+		}
+		return 0, false
+	}
+	rk, okR := cmpConst(row)
+	switch {
+	case !haveSet || !okR:
+		c.R.Unk(rule, "ColNullable", cfg, p.Pos(app.Pos()), "mask constants not recognised")
+	case rk != setConst:
+		c.R.Bad(rule, "ColNullable", cfg, p.Pos(row.Pos()), sprintf("Append writes %d for a set value but Row reports Set when the mask is %d: every value comes back with the opposite nullness", setConst, rk))
+	default:
+		okN := true
+		if isn != nil {
+			if nk, ok := cmpConst(isn); ok && nk == setConst {
+				okN = false
+				c.R.Bad(rule, "ColNullable.IsElemNull", cfg, p.Pos(isn.Pos()), "IsElemNull reports NULL for the mask value that means set")
+			}
+		}
+		if okN {
+			c.R.Ok(rule, "ColNullable", cfg, p.Pos(app.Pos()), sprintf("set <-> mask %d in Append, Row and IsElemNull", setConst))
+		}
 	}
 }
